@@ -593,7 +593,49 @@ func (r *nhRun) faults(seed int64, wg *sync.WaitGroup) {
 				break
 			}
 		default:
-			if r.p.snapshots {
+			if r.p.snapshots && r.p.crashes && rng.Intn(3) != 0 && len(down) == 0 {
+				// a cut-off host (nothing new reaches it: its saved log keeps a tail above what it
+				// applied or is about to snapshot) takes a local snapshot and then restarts, cleanly or
+				// by power loss, before anything else is appended; often the leader, whose log then
+				// grows by the proposals it accepts while cut off
+				a := 1 + rng.Intn(n)
+				if l := r.leaderHost(); l != 0 && rng.Intn(2) == 0 {
+					a = l
+				}
+				if nh := r.nhOf(a); nh != nil {
+					// the host applies slowly for a moment first, so that its log is ahead of its
+					// applied index (= the snapshot index) also when it is a follower
+					atomic.StoreInt32(&c.host(a).lagUs, int32(1000+rng.Intn(3000)))
+					time.Sleep(time.Duration(15+rng.Intn(30)) * time.Millisecond)
+					c.net.mu.Lock()
+					for b := 1; b <= n; b++ {
+						if b != a {
+							c.net.cut[[2]string{c.host(a).addr, c.host(b).addr}] = true
+							c.net.cut[[2]string{c.host(b).addr, c.host(a).addr}] = true
+						}
+					}
+					c.net.mu.Unlock()
+					c.rec.emit("Fault", nhEv{"what": "snapcrash", "h": a})
+					time.Sleep(time.Duration(2+rng.Intn(25)) * time.Millisecond)
+					func() {
+						defer func() { _ = recover() }()
+						ctx, cancel := context.WithTimeout(context.Background(), 400*time.Millisecond)
+						_, _ = nh.SyncRequestSnapshot(ctx, c.shard, SnapshotOption{OverrideCompactionOverhead: true,
+							CompactionOverhead: uint64(rng.Intn(3))})
+						cancel()
+					}()
+					if rng.Intn(2) == 0 {
+						r.crash(a, false, rng)
+					} else {
+						r.stopGracefully(a)
+					}
+					atomic.StoreInt32(&c.host(a).lagUs, 0)
+					r.restart(a)
+					c.net.mu.Lock()
+					c.net.cut = map[[2]string]bool{}
+					c.net.mu.Unlock()
+				}
+			} else if r.p.snapshots {
 				a := 1 + rng.Intn(n)
 				if nh := r.nhOf(a); nh != nil {
 					_, _ = nh.RequestSnapshot(c.shard, SnapshotOption{OverrideCompactionOverhead: true,
